@@ -3,7 +3,7 @@ import GMGProofs.Lemmas.CycleExec
 # The textbook multigrid recursion and the refinement of the buffer-rotating programs to it
 core Lean only.
 -/
-namespace Cycle
+namespace MGCycle
 variable {V : Type}
 
 /-! ## specification -/
@@ -420,4 +420,4 @@ theorem cycleAt_val (o : Ops V) (c : Cfg) (k : Kind) (ex fgs : Bool) (d : Nat) (
   · rename_i h; rw [hd h]; exact extrap_val o c k fgs m
   · exact plain_val o c _ k d _ _ _ m rfl rfl rfl (ref_ne_of_buf (by decide)) (ref_ne_of_buf (by decide)) (ref_ne_of_buf (by decide))
 
-end Cycle
+end MGCycle
